@@ -49,6 +49,35 @@ def write(elems, with_group_length=True):
     return struct.pack('<HHI', 0, 0, 4) + ul(len(body)) + body
 
 
+def encode_dataset(ds):
+    """Implicit VR little endian encoding of a pydicom Dataset holding a command set, written here from PS3.5
+    (not with pydicom's writer nor the library's dsutils): elements in ascending tag order, value fields
+    US / UL little endian, UI padded with NUL, other text padded with space, an absent value has length 0."""
+    out = b''
+    for elem in sorted(ds, key=lambda e: int(e.tag)):
+        vr, val = elem.VR, elem.value
+        if val is None or (isinstance(val, (str, bytes)) and len(val) == 0):
+            body = b''
+        elif vr in ('US', 'UL', 'AT'):
+            vals = list(val) if isinstance(val, (list, tuple)) or type(val).__name__ == 'MultiValue' else [val]
+            if vr == 'AT':
+                body = b''.join(struct.pack('<HH', int(x) >> 16, int(x) & 0xFFFF) for x in vals)
+            else:
+                body = b''.join(struct.pack('<H' if vr == 'US' else '<I', int(x)) for x in vals)
+        elif vr == 'UI':
+            vals = list(val) if type(val).__name__ == 'MultiValue' else [val]
+            b = '\\'.join(str(x) for x in vals).encode('ascii')
+            body = b + (b'\0' if len(b) % 2 else b'')
+        elif vr in ('AE', 'LO', 'SH', 'CS', 'LT', 'ST', 'PN', 'DS', 'IS'):
+            vals = list(val) if type(val).__name__ == 'MultiValue' else [val]
+            b = '\\'.join(str(x) for x in vals).encode('ascii')
+            body = b + (b' ' if len(b) % 2 else b'')
+        else:
+            raise CmdError('VR %s not expected in a command set' % vr)
+        out += struct.pack('<HHI', elem.tag.group, elem.tag.element, len(body)) + body
+    return out
+
+
 def as_int(v):
     return struct.unpack('<H', v)[0] if len(v) == 2 else struct.unpack('<I', v)[0]
 
